@@ -21,6 +21,22 @@ __CPROVER_ensures(IMPLIES(__CPROVER_return_value == KSI_OK,
 /* frame: the offset is not parseHdr's business */
 __CPROVER_assigns(t->tag, t->is_nc, t->is_fwd, t->hdr_len, t->dat_len);
 
+#ifdef FTLV_MEMREAD_ARITH
+/* Arithmetic abstraction of the contract below (no statement about the octets of m): used where KSI_FTLV_memRead is
+ * a callee inside a loop (KSI_FTLV_memReadN, convertToNested, encodeAsNestedTlvs).  It is enforced on the real body
+ * by job C09.memRead_arith, so the chain is closed. */
+int KSI_FTLV_memRead(const unsigned char *m, size_t l, KSI_FTLV *t)
+__CPROVER_requires(l >= 1)   /* every loop that calls it runs while "remaining > 0"; the empty buffer is job C09.memRead_empty */
+__CPROVER_requires(__CPROVER_is_fresh(m, l))
+__CPROVER_requires(__CPROVER_is_fresh(t, sizeof(*t)))
+__CPROVER_ensures(__CPROVER_return_value == KSI_OK || __CPROVER_return_value == KSI_INVALID_FORMAT)
+__CPROVER_ensures(IMPLIES(__CPROVER_return_value == KSI_OK,
+		(t->hdr_len == 2 || t->hdr_len == 4) && t->dat_len <= SPEC_TLV_MAX_LEN && t->hdr_len + t->dat_len <= l &&
+		t->tag <= SPEC_TLV_MAX_TAG && (t->is_nc == 0 || t->is_nc == 1) && (t->is_fwd == 0 || t->is_fwd == 1) &&
+		IMPLIES(t->hdr_len == 2, t->tag <= 0x1f && t->dat_len <= 0xff)))
+__CPROVER_ensures(t->off == 0)
+__CPROVER_assigns(t->off, t->tag, t->is_nc, t->is_fwd, t->hdr_len, t->dat_len);
+#else
 /* For EVERY buffer (m, l), l >= 0: no octet outside [m, m+l) is read (is_fresh(m, l) + pointer checks),
  * OK <=> one complete element is present, and the fields equal the reference decoding as soon as the header is
  * complete (net_tcp_async.c:332 uses hdr_len + dat_len after a non-OK return to learn how much is missing). */
@@ -37,4 +53,5 @@ __CPROVER_ensures(IMPLIES(spec_tlv_hdr_complete(m, l),
 		t->dat_len == spec_tlv_dec_dat_len(m, l)))
 __CPROVER_ensures(t->off == 0)
 __CPROVER_assigns(t->off, t->tag, t->is_nc, t->is_fwd, t->hdr_len, t->dat_len);
+#endif
 #endif
